@@ -224,6 +224,10 @@ class Runner:
         nattr = rng.randint(1, 4) if fixed is None else len(fixed[0])
         attrs = []
         info = []
+        # attribute names are the user's choice: also names the implementation likes to use for its own parameters
+        names = rng.sample(HOSTILE_NAMES, nattr) if rng.random() < 0.5 else [f"a{i}" for i in range(nattr)]
+        if names[0] != "a0":
+            self.R.count("classes_with_implementation_like_attribute_names")
         for i in range(nattr):
             term = A.gen_term(rng, rng.randint(0, 3)) if fixed is None else fixed[0][i]
             mode = rng.choice(["none", "good", "good", "bad"]) if fixed is None else "good"
@@ -245,7 +249,7 @@ class Runner:
                         break
                 else:
                     mode = "none"
-            attrs.append((f"a{i}", term, default))
+            attrs.append((names[i], term, default))
             info.append(mode)
         variant = rng.choice(["plain", "plain", "subclass", "generic", "typevar", "typevar-subclass"]) if fixed is None else fixed[1]
         made = self.make_class(attrs, variant, fixed[2] if fixed is not None else None)
@@ -298,6 +302,9 @@ class Runner:
                     self.R.monitor("rejects-violating", status != "ok", where={"top": top_kind(term), "at": top_kind(term), "origin": "multi-breaker", "kind": "accepted-violating"},
                                    detail=f"{an}: {A.render(term)} accepted {cand!r} next to conforming siblings", case=case)
                     break
+
+
+HOSTILE_NAMES = ["self", "cls", "kwargs", "args", "other", "key", "name", "value", "default", "annotation", "validator", "state", "bases", "namespace"]
 
 
 class _NoDefault:
